@@ -403,32 +403,40 @@ fn str_prefix6(ost: Option<String>) -> Result<Option<Prefix6>, Error> {
 
 fn str_duration(ost: Option<String>) -> Result<Option<std::time::Duration>, Error> {
     ost.map(|st| {
-        let mut num = None;
-        let mut ret = Default::default();
+        let mut num: Option<u64> = None;
+        let mut ret: std::time::Duration = Default::default();
+        let too_large = || Error::InvalidConfig(format!("Duration {} is too large", st));
+        /* Adds num * multiplier seconds to ret, a unit must be preceeded by a number */
+        let mut add_unit = |ret: &mut std::time::Duration,
+                            num: &mut Option<u64>,
+                            unit: char,
+                            multiplier: u64|
+         -> Result<(), Error> {
+            let n = num.take().ok_or_else(|| {
+                Error::InvalidConfig(format!("Unit {} without a number in duration", unit))
+            })?;
+            *ret = n
+                .checked_mul(multiplier)
+                .and_then(|secs| ret.checked_add(std::time::Duration::from_secs(secs)))
+                .ok_or_else(too_large)?;
+            Ok(())
+        };
         for c in st.chars() {
             match c {
                 '0'..='9' => {
-                    if let Some(n) = num {
-                        num = Some(n * 10 + c as u64 - '0' as u64);
-                    } else {
-                        num = Some(c as u64 - '0' as u64);
-                    }
+                    let digit = c as u64 - '0' as u64;
+                    num = Some(
+                        num.unwrap_or(0)
+                            .checked_mul(10)
+                            .and_then(|n| n.checked_add(digit))
+                            .ok_or_else(too_large)?,
+                    );
                 }
-                's' => {
-                    ret += std::time::Duration::from_secs(num.take().unwrap());
-                }
-                'm' => {
-                    ret += std::time::Duration::from_secs(num.take().unwrap() * 60);
-                }
-                'h' => {
-                    ret += std::time::Duration::from_secs(num.take().unwrap() * 3600);
-                }
-                'd' => {
-                    ret += std::time::Duration::from_secs(num.take().unwrap() * 86400);
-                }
-                'w' => {
-                    ret += std::time::Duration::from_secs(num.take().unwrap() * 7 * 86400);
-                }
+                's' => add_unit(&mut ret, &mut num, c, 1)?,
+                'm' => add_unit(&mut ret, &mut num, c, 60)?,
+                'h' => add_unit(&mut ret, &mut num, c, 3600)?,
+                'd' => add_unit(&mut ret, &mut num, c, 86400)?,
+                'w' => add_unit(&mut ret, &mut num, c, 7 * 86400)?,
                 x if x.is_whitespace() => (),
                 '_' => (),
                 _ => {
@@ -440,7 +448,9 @@ fn str_duration(ost: Option<String>) -> Result<Option<std::time::Duration>, Erro
             }
         }
         if let Some(n) = num {
-            ret += std::time::Duration::from_secs(n);
+            ret = ret
+                .checked_add(std::time::Duration::from_secs(n))
+                .ok_or_else(too_large)?;
         }
         Ok(ret)
     })
